@@ -292,6 +292,18 @@ pub fn property() -> Property {
                 small_stack: false,
             },
             Sub {
+                name: "fuzz_corpus_replay",
+                about: "every committed seed and saved artifact of the libFuzzer target fz_diff (bytes -> arbitrary::Unstructured -> (rule, data) over the operator tables and value corpus -> implementation vs single-pass reference model, oracle inside the target) replayed through the target's own body; the thorough tier additionally runs the coverage-guided campaign.",
+                nontrivial: "the decoded rule is evaluated and the model determines the outcome.",
+                strategy: None,
+                fixed: Some(|| fuzz_corpus_cases("fz_diff")),
+                fixed_exhaustive: false,
+                check: check_fuzz_case,
+                quick: 0,
+                thorough: 0,
+                small_stack: false,
+            },
+            Sub {
                 name: "substitution",
                 about: "for each of the 22 eager operators and generated operand expressions a_i (all succeeding): apply({k:[a_1..a_n]},d) must equal apply({k:[{var:0}..{var:n-1}]},[apply(a_1,d)..]) and the log lines of the whole must be exactly those of its operands (model-free).",
                 nontrivial: "some operand is computed and yields a container or an operation-shaped value.",
